@@ -415,10 +415,10 @@ func SliceReuses(f *Func) []SliceReuse {
 // conditionally assigned inside the loop body and read later in the same body:
 // when the condition does not hold, the value of a previous iteration is used.
 type StaleVar struct {
-	Var   types.Object
-	Loop  ast.Stmt
-	Set   ast.Node
-	Read  ast.Node
+	Var  types.Object
+	Loop ast.Stmt
+	Set  ast.Node
+	Read ast.Node
 }
 
 // StaleLoopVars finds the pattern in f. Accumulators (assignments that mention
